@@ -294,6 +294,38 @@ func run(r *Rng, tier string, n int) {
 			}
 		}
 	}
+	// a large OPT (RFC 7830 padding): header + question + OPT at, just below and above max(size, 512), so
+	// that nothing else fits ("the OPT record is always retained", also on the path where no record fits)
+	for _, pad := range []int{300, 440, 454, 455, 456, 474, 500, 700} {
+		for _, nans := range []int{0, 1, 30} {
+			for _, optpos := range []int{0, 1} {
+				m := new(dns.Msg)
+				m.Response = true
+				m.SetQuestion("padded.example.org.", dns.TypeA)
+				for j := 0; j < nans; j++ {
+					m.Answer = append(m.Answer, &dns.A{Hdr: dns.RR_Header{Name: "padded.example.org.", Rrtype: dns.TypeA, Class: 1, Ttl: 60}, A: []byte{192, 0, 2, byte(j)}})
+				}
+				o := &dns.OPT{Hdr: dns.RR_Header{Name: ".", Rrtype: dns.TypeOPT, Class: 1232}}
+				o.Option = []dns.EDNS0{&dns.EDNS0_PADDING{Padding: make([]byte, pad)}}
+				extra := []dns.RR{&dns.A{Hdr: dns.RR_Header{Name: "ns.example.org.", Rrtype: dns.TypeA, Class: 1, Ttl: 60}, A: []byte{192, 0, 2, 200}}}
+				if optpos == 0 {
+					m.Extra = append([]dns.RR{o}, extra...)
+				} else {
+					m.Extra = append(extra, o)
+				}
+				fixed := new(dns.Msg)
+				fixed.SetQuestion("padded.example.org.", dns.TypeA)
+				fixed.Extra = []dns.RR{o}
+				fl := packedLen(fixed)
+				for _, sz := range []int{0, 512, fl - 1, fl, fl + 1, fl + 16, 4096} {
+					if sz >= 0 {
+						checkTruncate(m, sz, true, false)
+					}
+				}
+				st["large_opt_messages"]++
+			}
+		}
+	}
 	// TSIG: untouched
 	m := new(dns.Msg)
 	m.SetQuestion("example.org.", dns.TypeA)
